@@ -9,9 +9,9 @@ import (
 	"github.com/plgd-dev/go-coap/v3/net/blockwise"
 )
 
-func genValues(g *gen) {
-	genBlockwise(g)
-	genNoResponse(g)
+func init() {
+	register("Blockwise.lean", func(g *gen, _ string) { genBlockwise(g) })
+	register("NoResponse.lean", genNoResponse)
 }
 
 func genBlockwise(g *gen) {
@@ -30,7 +30,7 @@ func genBlockwise(g *gen) {
 	g.write("Blockwise.lean", b.String())
 }
 
-func genNoResponse(g *gen) {
+func genNoResponse(g *gen, repo string) {
 	var b strings.Builder
 	b.WriteString("namespace CoapVerif.Generated.NoResponse\n\n")
 	m := noresponse.VerifValueMap()
@@ -39,6 +39,10 @@ func genNoResponse(g *gen) {
 		natList(ks, func(k uint32) string {
 			return fmt.Sprintf("(%d, %s)", k, natList(m[k], func(c codes.Code) string { return fmt.Sprint(uint64(c)) }))
 		}))
+	shift, bits := noResponseClassSwitch(repo)
+	fmt.Fprintf(&b, "/-- message/noresponse/noresponse.go: IsNoResponseCode switches on `code >> classShift` (read from the AST) -/\ndef classShift : Nat := %d\n", shift)
+	fmt.Fprintf(&b, "/-- the `case <class>: classBit = <bit>` arms of that switch, in source order (read from the AST) -/\ndef classBits : List (Nat × Nat) := %s\n",
+		natList(bits, func(p [2]uint64) string { return fmt.Sprintf("(%d, %d)", p[0], p[1]) }))
 	b.WriteString("\nend CoapVerif.Generated.NoResponse\n")
 	g.write("NoResponse.lean", b.String())
 }
